@@ -12,7 +12,7 @@ RULE = ("random trees over 2 or 3 layers: main file {absent, regular, empty, lin
         "distinct by scenario")
 
 def gen(rng, tier):
-    n = 1500 if tier == "quick" else 20000
+    n = 1500 if tier == "quick" else 60000
     out = []
     for _ in range(n):
         st = laylib.setup(rng, popts=rng.random() < 0.3, relative=rng.random() < 0.15, links=rng.random() < 0.3)
